@@ -1,11 +1,5 @@
-/- Driver for C11 (stub — not built yet) -/
-import Driver.Common
+/- C11 shares the runtime-session driver of C02 -/
+import Driver.C02
 namespace Driver.C11
-open Driver
-
-def main (stdin : IO.FS.Stream) : IO Unit := do
-  let cases ← readCases stdin
-  for c in cases do
-    IO.println s!"fail {(words c.header)[1]?.getD "?"} op=0 kind=unimplemented"
-
+def main (stdin : IO.FS.Stream) : IO Unit := Driver.C02.main "c11" stdin
 end Driver.C11
